@@ -28,7 +28,7 @@ from collections.abc import Awaitable, Callable, Mapping, Sequence
 from types import TracebackType
 from typing import Any, Generic, NoReturn, Protocol, Self, TypeVar
 
-from ..exceptions import ServerAlreadyRunning, ServerClosedError
+from ..exceptions import BusyResourceError, ServerAlreadyRunning, ServerClosedError
 from ..lowlevel import _utils
 from ..lowlevel._lock import ForkSafeLock
 from ..lowlevel.api_async.backend.abc import AsyncBackend, CancelScope, Task, TaskGroup, ThreadsPortal
@@ -98,8 +98,13 @@ class BaseStandaloneNetworkServerImpl(AbstractNetworkServer, Generic[_T_AsyncSer
     ) -> _T_Return | _T_Default:
         with self.__bootstrap_lock.get():
             if (portal := self.__threads_portal) is not None and (server := self.__server) is not None:
-                with contextlib.suppress(RuntimeError, concurrent.futures.CancelledError):
+                try:
                     return f(portal, server)
+                except BusyResourceError:
+                    # Not a "portal is shut down" error: the server refused the operation (e.g. server_close() during set-up).
+                    raise
+                except (RuntimeError, concurrent.futures.CancelledError):
+                    pass
         return default()
 
     def _run_sync_or(
@@ -115,9 +120,10 @@ class BaseStandaloneNetworkServerImpl(AbstractNetworkServer, Generic[_T_AsyncSer
 
     @_utils.inherit_doc(AbstractNetworkServer)
     def server_close(self) -> None:
-        with self.__close_lock.get(), contextlib.ExitStack() as stack:
-            stack.callback(self.__is_closed.set)
+        with self.__close_lock.get():
             self._run_sync_or(lambda portal, server: portal.run_coroutine(server.server_close), None)
+            # Only reached if the asynchronous server has really been closed (or is not running).
+            self.__is_closed.set()
 
     @_utils.inherit_doc(AbstractNetworkServer)
     def shutdown(self, timeout: float | None = None) -> None:
